@@ -39,7 +39,7 @@ def sample_cols(center):
 # generation
 
 def gen_case(rng, tier, methods=('cycles', 'amp'), centers=('peak', 'trough'), kinds=None, max_len=480,
-             fek_prob=0.7, extra=None, wide=False, f32=False, rs_prob=0.85, amp_wide=False, signal=None):
+             fek_prob=0.7, extra=None, wide=False, f32=False, rs_prob=0.85, amp_wide=False, signal=None, exact_k=3):
     """One compute_features case.  wide=True additionally varies the band (off-band / narrow / wide), the type and
     value of fs, the container of f_range, the sample dtype (int64; float32 with f32=True) and generates empty option
     dictionaries (gen.vary); amp_wide=True additionally generates, for the amplitude method, the detector's own
@@ -47,7 +47,10 @@ def gen_case(rng, tier, methods=('cycles', 'amp'), centers=('peak', 'trough'), k
     stream of the drivers that did not ask for it.  `signal`: a ready-made gen.signal dictionary.  Every case gets a
     `key_order` (insertion order of the option dictionaries; drawn from a generator seeded with the case content so
     that the main stream is not shifted) and the fields drawn by `mechanisms` (`prebuffer`, `readonly`, `rejected`:
-    the analysis on a refilled work buffer, on a read-only array, after rejected calls; same kind of generator)."""
+    the analysis on a refilled work buffer, on a read-only array, after rejected calls; same kind of generator).
+    ~15 % of the cases (drawn the same way, exact_length) are re-expressed so that a filter length / minimum duration
+    falls exactly on an integer number of samples or one ulp beside it (`exact`; exact_k: the envelope's number of
+    cycles, None = not here)."""
     s = signal if signal is not None else gen.signal(rng, kind=(rng.choice(kinds) if kinds else None), max_len=max_len)
     if wide:
         s = gen.vary(rng, s, f32=f32)
@@ -123,6 +126,8 @@ def gen_case(rng, tier, methods=('cycles', 'amp'), centers=('peak', 'trough'), k
             c['bk'] = {}
     if extra:
         c.update(extra)
+    if exact_k is not None:
+        exact_length(c, s['period'], exact_k)
     c['key_order'] = key_order(c)
     c.update(mechanisms(c))
     return c
@@ -160,6 +165,7 @@ def gen_routing_case(rng, tier):
             # a short detector filter keeps the detected bursts about as short as the rhythm's bursts
             bk['filter_kwargs'] = {'n_cycles': rng.choice([1, 2])}
     c['thr'], c['bk'] = thr, bk
+    exact_length(c, s['period'], 3)
     c['key_order'] = key_order(c)
     c.update(mechanisms(c))
     return c
@@ -172,7 +178,7 @@ def key_order(c):
     """Insertion order of the keys of the caller's option dictionaries and of the keyword arguments themselves
     (a caller does not write his settings in any canonical order).  Drawn from a generator seeded with the case content,
     stored in the case (`key_order`) and honoured by build_kwargs, so that a case replays exactly."""
-    r = random.Random(canon_hash({k: v for k, v in c.items() if k not in ('key_order', 'history') + MECH_FIELDS}))
+    r = random.Random(canon_hash({k: v for k, v in c.items() if k not in ('key_order', 'history', 'exact') + MECH_FIELDS}))
     ko = {}
     for name in ('fek', 'thr', 'bk'):
         d = c.get(name)
@@ -229,7 +235,7 @@ def mechanisms(c):
                           or burst method) made on the case's OWN signal object and option objects directly before the
                           judged analysis; a mis-spelt key is put into the caller's own dictionary and taken out again
                           after the rejection."""
-    r = random.Random(canon_hash({k: v for k, v in c.items() if k not in ('key_order', 'history') + MECH_FIELDS}) + '/mech')
+    r = random.Random(canon_hash({k: v for k, v in c.items() if k not in ('key_order', 'history', 'exact') + MECH_FIELDS}) + '/mech')
     m = {}
     if r.random() < 0.30:
         m['prebuffer'] = {'seed': r.randrange(1 << 30)}
@@ -372,6 +378,110 @@ def context(c):
 
 def with_context(c, msg):
     return msg + context(c) if msg else msg
+
+
+# ----------------------------------------------------------------------------------------------
+# lengths exactly on an integer number of samples
+
+EXACT_SHARE = 0.15
+
+
+def exact_length(c, period, k_env=3):
+    """For EXACT_SHARE of the cases (drawn from a generator seeded with the case content, so that the main stream of no
+    driver is shifted and all other cases stay as they were) the sampling rate, the band and one length option are
+    replaced by a combination from gen.exact_cycle_table / gen.exact_seconds_pick: fs * n_cycles / f_lo (or
+    fs * n_seconds) is exactly an odd or even integer, or its binary64 value is one ulp beside one, and (80 %) the
+    mathematically equivalent ways of computing it disagree after the ceil.  The band becomes (f_lo, 2 f_lo) with the
+    rhythm inside; settings in seconds that are not the target keep their number of samples.  Target, one of
+      envelope          the band_amp envelope (k_env cycles; also the default extrema / detector filter),
+      extrema_cycles    find_extrema_kwargs filter_kwargs n_cycles,      extrema_seconds   ... n_seconds,
+      detector_cycles   burst_kwargs filter_kwargs n_cycles (amp),       detector_seconds  ... n_seconds (amp),
+      duration_cycles   the detector's minimum duration min_n_cycles * fs / f_lo (amp; count given in burst_kwargs or
+                        threshold_kwargs),                               duration_seconds  min_burst_duration * fs (amp).
+    Half of these cases get broadband noise of 0.3 / 0.6 / 1 standard deviations added to the samples (gen.roughen, +rough).
+    Modifies c in place (before key_order / mechanisms are drawn); records c['exact'] and tags the kind with +len."""
+    r = random.Random(canon_hash({k: v for k, v in c.items() if k not in ('key_order', 'history', 'exact') + MECH_FIELDS})
+                      + '/exactlen')
+    if r.random() >= EXACT_SHARE:
+        return None
+    nsamp = len(c['sig'])
+    amp = c['method'] == 'amp' and not c.get('shape_only')
+    targets = ['envelope', 'envelope', 'extrema_cycles', 'extrema_seconds']
+    if amp:
+        targets += ['detector_cycles', 'detector_seconds', 'duration_cycles', 'duration_cycles', 'duration_seconds']
+    target = r.choice(targets)
+    # the envelope's own k_env cycles are on the integer for the envelope and the seconds targets, and for half of the others
+    n = k_env if target in ('envelope', 'extrema_seconds', 'detector_seconds', 'duration_seconds') or r.random() < 0.5 else None
+    if target == 'duration_cycles' and c.get('routing'):
+        n = resolved(c)['n'] if resolved(c)['n'] in gen.EXACT_N else None      # the routing pairs stay as drawn
+        if n is None:
+            target, n = 'envelope', k_env
+    e = gen.exact_cycles_pick(r, period, nsamp, n=n, need='ceil' if target == 'duration_cycles' else 'taps')
+    if e is None:
+        return None
+    old_fs = c['fs']
+    fs = float(e['fs']) if isinstance(old_fs, float) else e['fs']
+    x = {'target': target, 'n': e['n'], 'L': e['L'], 'rel': e['rel'], 'disc_taps': e['disc_taps'], 'disc_ceil': e['disc_ceil']}
+
+    def resample(sec):                      # a setting in seconds keeps its number of samples
+        return round(sec * old_fs / fs, 6)
+    fek = dict(c['fek']) if c.get('fek') is not None else None
+    bk = _deep(c['bk']) if c.get('bk') is not None else None
+    thr = dict(c['thr']) if c.get('thr') is not None else None
+    if fek and 'n_seconds' in (fek.get('filter_kwargs') or {}):
+        fek['filter_kwargs'] = {'n_seconds': resample(fek['filter_kwargs']['n_seconds'])}
+    if bk and 'n_seconds' in (bk.get('filter_kwargs') or {}):
+        bk['filter_kwargs'] = {'n_seconds': resample(bk['filter_kwargs']['n_seconds'])}
+    if bk and bk.get('min_burst_duration'):
+        bk['min_burst_duration'] = resample(bk['min_burst_duration'])
+    sec = None
+    if target in ('extrema_seconds', 'detector_seconds', 'duration_seconds'):
+        lo, hi = (0.4, 4.0) if target != 'duration_seconds' else (1.0, 3.0)
+        sec = gen.exact_seconds_pick(r, e['fs'], e['f_lo'], nsamp, lo, hi)
+        if sec is None:
+            target = x['target'] = 'envelope'
+        else:
+            x.update(n_seconds=sec['n_seconds'], L=sec['L'], rel=sec['rel'], disc_taps=sec['disc_taps'],
+                     disc_ceil=sec['disc_ceil'], envelope={'n': e['n'], 'L': e['L'], 'rel': e['rel']})
+    if target == 'envelope':
+        # the default filters (k_env cycles) are on the integer as well: in 40 % the options' own filter lengths go
+        if fek and 'filter_kwargs' in fek and r.random() < 0.4:
+            del fek['filter_kwargs']
+    elif target == 'extrema_cycles':
+        fek = fek if fek is not None else {}
+        fek['filter_kwargs'] = {'n_cycles': e['n']}
+    elif target == 'extrema_seconds':
+        fek = fek if fek is not None else {}
+        fek['filter_kwargs'] = {'n_seconds': sec['n_seconds']}
+    elif target == 'detector_cycles':
+        bk = bk if bk is not None else {}
+        bk['filter_kwargs'] = {'n_cycles': e['n']}
+    elif target == 'detector_seconds':
+        bk = bk if bk is not None else {}
+        bk['filter_kwargs'] = {'n_seconds': sec['n_seconds']}
+    elif target == 'duration_cycles':
+        if not c.get('routing'):
+            bk = bk if bk is not None else {}
+            bk.pop('min_burst_duration', None)
+            if 'min_n_cycles' in bk or r.random() < 0.5:
+                bk['min_n_cycles'] = e['n']
+            else:
+                thr = thr if thr is not None else {}
+                thr['min_n_cycles'] = e['n']
+    elif target == 'duration_seconds':
+        bk = bk if bk is not None else {}
+        bk['min_burst_duration'] = sec['n_seconds']
+    c['fs'] = fs
+    c['f_range'] = [e['f_lo'], round(2 * e['f_lo'], 6)]
+    c['fek'], c['bk'], c['thr'] = fek, bk, thr
+    c['kind'] = ''.join(p for p in c['kind'].replace('+', '\0+').split('\0') if p[1:] not in gen.BANDS) + '+len'   # the band tag goes
+    if r.random() < 0.5:
+        # broadband noise on top (a kernel two taps longer moves no crossing of a clean rhythm)
+        x['rough'] = r.choice([0.3, 0.6, 1.0])
+        c['sig'] = gen.hexlist(gen.roughen(r.randrange(1 << 30), gen.unhexlist(c['sig']), x['rough'], c.get('dtype')))
+        c['kind'] += '+rough'
+    c['exact'] = x
+    return x
 
 
 # ----------------------------------------------------------------------------------------------
@@ -815,9 +925,19 @@ def run_history(hist, at):
 def gen_shape_case(rng, tier):
     """compute_shape_features called directly with its own n_cycles argument (default extrema filter when
     find_extrema_kwargs is None, and length of the band-amplitude filter)."""
-    c = gen_case(rng, tier, methods=('cycles',), fek_prob=0.5, wide=True)
+    s = gen.signal(rng, kind=None, max_len=480)            # (drawn here, as gen_case would, to know the rhythm's period)
+    c = gen_case(rng, tier, methods=('cycles',), fek_prob=0.5, wide=True, signal=s, exact_k=None)
     c['kind'] = 'shape/' + c['kind'].split('/', 2)[2]
     c.update(shape_only=True, n_cycles=rng.choice([2, 3, 5]), thr=None, bk=None, return_samples=True)
+    if exact_length(c, s['period'], c['n_cycles']):
+        # envelope and default extrema filter of n_cycles cycles on an integer number of samples
+        c['thr'] = c['bk'] = None
+        c['key_order'] = key_order(c)
+        c.update({k: None for k in MECH_FIELDS})
+        c.update(mechanisms(c))
+        for k in MECH_FIELDS:
+            if c.get(k) is None:
+                c.pop(k, None)
     c.pop('rejected', None)                 # rejected calls are made through compute_features (run_pipe) only
     return c
 
@@ -1472,7 +1592,8 @@ def premise_failed(o):
 def extra_evidence():
     """Counters of this run: cases on which the model comparison was void (model answers Err EDegenerate); cases carrying
     a history / an in-place replay / a re-ordered option dictionary / a threshold from a first run / a refilled work
-    buffer / a read-only input / rejected calls before the judged analysis; premise checks."""
+    buffer / a read-only input / rejected calls before the judged analysis / a filter length or minimum duration on an
+    integer number of samples; premise checks."""
     ev = {'model_comparison_void_cases': VOID['n']}
     ev.update(COUNTS)
     return ev
@@ -1499,6 +1620,13 @@ def kind_of(c, o):
             _count('cases_after_rejected_calls')
             _count('rejected_calls', len(c['rejected']))
             _count('rejected_calls_not_rejected', sum(1 for x in o.get('rejected', []) if x == 'accepted'))
+        if c.get('exact'):
+            x = c['exact']
+            _count('cases_with_a_length_on_an_integer')
+            _count('length_on_an_integer/' + x['target'])
+            _count('length_on_an_integer_' + {'exact': 'exactly', 'at': 'rounded_onto_it', 'above': 'one_ulp_above',
+                                              'below': 'one_ulp_below'}[x['rel']])
+            _count('length_on_an_integer_equivalent_computations_disagree', int(bool(x['disc_taps'] or x['disc_ceil'])))
     if o.get('mirror_inplace'):
         _count('mirror_replays_in_place')
     if o.get('scale_inplace'):
